@@ -338,7 +338,9 @@ func genC15Mut(t *rapid.T) c15Case {
 		parts = append(parts[:k], parts[k+1:]...)
 		return c15Case{Name: strings.Join(parts, ":"), Expect: "malformed"}
 	case 1: // version
-		parts[0] = rapid.SampledFrom([]string{"OCRA-2", "OCRA-10", "OCRA-1x", "OCRA", "", "OCRA-11", "XOCRA-1", "OCRA-1 ", "OCRA_1"}).Draw(t, "ver")
+		parts[0] = rapid.SampledFrom([]string{"OCRA-2", "OCRA-10", "OCRA-1x", "OCRA", "", "OCRA-11", "XOCRA-1", "OCRA-1 ", "OCRA_1",
+			// the version read as a number: other spellings of 1 are not the version string, and the prefix is not optional
+			"OCRA-01", "OCRA-001", "OCRA-+1", "OCRA-1.0", "OCRA-0x1", "OCRA- 1", "OCRA--1", "OCRA-1e0", "OCRA-١", "OCRA-１", "1", "01", "+1", "-1", "OCRA-", "OCRA-OCRA-1", "OCRA-1-1", "ocra-01"}).Draw(t, "ver")
 		return c15Case{Name: strings.Join(parts, ":"), Expect: "malformed"}
 	case 2: // crypto
 		if rapid.IntRange(0, 2).Draw(t, "digitsSpelt") == 0 {
